@@ -326,7 +326,12 @@ def r5(R5, cfg, F):
         ok = len(fg) == 1 and len(rm) == 1
         why = 'shape: one AssetMap::remove / take and one forget_asset expected'
         if ok:
-            if rm[0].callee.name == 'remove':
+            if rm[0].callee.name == 'take' and p.endswith('::remove'):
+                # (AssetMap::remove written in place: `take(..).is_some()`)
+                ok = common.guarded_by_variant(b, fg[0].bb, [['call@bb%d' % rm[0].bb]], 1)
+                g = [x for x in common.guards_of(b, fg[0].bb) if x[3][0] == 'discr' and common.deep_path(b, x[3][1]) == ['call@bb%d' % rm[0].bb]]
+                ok = ok and common.inevitable(b, g, fg[0].bb)
+            elif rm[0].callee.name == 'remove':
                 tg = [(x, t) for x, t in common.call_truth_guards(b, fg[0].bb) if x is rm[0]]
                 ok = tg == [(rm[0], True)]
                 guards = [x for x in common.guards_of(b, fg[0].bb) if any(y is rm[0] for y, _ in common.call_truth_guards(b, fg[0].bb))]
@@ -343,7 +348,8 @@ def r5(R5, cfg, F):
     for p in ('cache::AssetMap::remove', 'local_cache::AssetMap::remove'):
         b = F.body(p)
         if not b:
-            R5.missing(cfg, p)
+            # folded into its callers: nothing left to judge here (the caller's own test is judged above)
+            R5.note(cfg, **{'remove_wrapper_absent:' + p: True})
             continue
         tk = [c for c in b.calls() if c.callee and c.callee.name == 'take' and 'AssetMap' in c.callee.best]
         ok = len(tk) == 1 and common.returns_is_variant(b, 1) == ['call@bb%d' % tk[0].bb]
